@@ -285,10 +285,10 @@ func (h *c15) frames() {
 	for _, n := range []int{65533, 65534, 65535, 65536, 65537, 65538, 70000, 131072} {
 		h.frameResp(h.r.Bytes(n))
 	}
-	for i := 0; i < vlib.Budget(400, 20000); i++ {
+	for i := 0; i < vlib.Budget(400, 6000); i++ {
 		h.frameResp(h.r.Bytes(h.r.Intn(2000)))
 	}
-	for i := 0; i < vlib.Budget(600, 30000); i++ {
+	for i := 0; i < vlib.Budget(600, 12000); i++ {
 		p := h.r.Bytes(h.r.Intn(40))
 		if h.r.Chance(1, 3) && len(p) > 0 {
 			p[0] = byte(h.r.Intn(len(p) + 2)) // length byte near the real length
@@ -317,14 +317,14 @@ func (h *c15) txt(p []byte) {
 }
 
 func (h *c15) txts() {
-	max := vlib.Budget(600, 3000)
+	max := vlib.Budget(600, 1600)
 	for n := 0; n <= max; n++ {
 		h.txt(h.r.Bytes(n))
 	}
 	for _, n := range []int{255 * 4, 255*4 + 1, 255*8 - 1, 65535, 65536, 65537} {
 		h.txt(h.r.Bytes(n))
 	}
-	for i := 0; i < vlib.Budget(1500, 60000); i++ {
+	for i := 0; i < vlib.Budget(1500, 25000); i++ {
 		var p []byte
 		switch h.r.Intn(3) {
 		case 0:
@@ -463,7 +463,7 @@ func (h *c15) names() {
 		}
 		h.name(ls)
 	}
-	for i := 0; i < vlib.Budget(300, 20000); i++ {
+	for i := 0; i < vlib.Budget(300, 10000); i++ {
 		var ls [][]byte
 		for k := h.r.Intn(8); k > 0; k-- {
 			n := h.r.Range(1, 20)
@@ -478,7 +478,7 @@ func (h *c15) names() {
 		h.name(ls)
 	}
 	// the reader on arbitrary bytes and offsets
-	for i := 0; i < vlib.Budget(3000, 150000); i++ {
+	for i := 0; i < vlib.Budget(3000, 60000); i++ {
 		buf := h.nameBytes()
 		pos := h.r.Intn(len(buf) + 2)
 		var ans string
@@ -755,10 +755,10 @@ func (h *c15) messages() {
 	h.message(&dns.Message{ID: 4, Question: []dns.Question{{Name: dns.Name{[]byte("ok"), []byte{}}, Type: 1, Class: 1}}}, true)
 	h.message(&dns.Message{ID: 4, Answer: []dns.RR{{Name: dns.Name{h.label(64)}, Type: 1, Class: 1}}}, true)
 
-	for i := 0; i < vlib.Budget(1200, 60000); i++ {
+	for i := 0; i < vlib.Budget(1200, 20000); i++ {
 		h.message(h.randMsg(), true)
 	}
-	for i := 0; i < vlib.Budget(40, 2000); i++ { // long chains at random depths, padded to random offsets
+	for i := 0; i < vlib.Budget(40, 800); i++ { // long chains at random depths, padded to random offsets
 		pad := 0
 		if h.r.Chance(1, 3) {
 			pad = h.r.Range(16000, 16600)
@@ -766,7 +766,7 @@ func (h *c15) messages() {
 		h.message(h.chainMsg(h.r.Range(2, 60), pad), true)
 	}
 	// the decoder on arbitrary bytes: random, and valid messages with mutations / truncations
-	for i := 0; i < vlib.Budget(3000, 150000); i++ {
+	for i := 0; i < vlib.Budget(3000, 50000); i++ {
 		var buf []byte
 		switch h.r.Intn(4) {
 		case 0:
@@ -1403,8 +1403,12 @@ func (h *c15) replay(path string) {
 				pt := unhex(p[4])
 				ct, err := transports.XORObfuscator{}.Obfuscate(pt, nil)
 				h.out.Checked()
+				if len(pt) == 0 {
+					h.out.Case("codec|obfs|xor-obf|-|-", okOrErr(ct, err), err == nil)
+				}
 				if err == nil {
 					back, rerr := transports.XORObfuscator{}.TryReveal(ct, [32]byte{})
+					h.out.Case("codec|obfs|xor-rev|"+hx(ct), okOrErr(back, rerr), rerr == nil)
 					if rerr != nil || !bytes.Equal(back, pt) {
 						h.out.OracleFail("C15:xor-obfuscator-empty-tag", fmt.Sprintf("xor: TryReveal(Obfuscate(tag)) != tag for a %d-byte tag (err=%v)", len(pt), rerr), line)
 					}
